@@ -115,8 +115,9 @@ _reg("C01", c01.run, translator=("T1", "T2", "T3"), module="NirVerif.Properties.
                 "covered by read_factors + the dictionary-level theorems of C13 and by the correspondence run and the "
                 "oracle); that the constructor applied to transported values yields an *equivalent* node is C05/C19 + oracle.",
      level_note="Lean kernel; hand-written models of to_dict/from_dict/write/read and of the h5py contract (create_dataset conversions, item[()], link names, iteration order), validated against the real library and real files on every run.")
-_reg("C02", c02.run,
-     theorems=["NirVerif.C02.array_bits", "NirVerif.C02.scalar_bits", "NirVerif.C02.param_roundtrip", "NirVerif.C02.toDict_field"],
+_reg("C02", c02.run, translator=("T1", "T18"), module="NirVerif.Properties.C02Generated",
+     theorems=["NirVerif.C02.array_bits", "NirVerif.C02.scalar_bits", "NirVerif.C02.param_roundtrip", "NirVerif.C02.toDict_field",
+               "NirVerif.C02.dispatch_generated", "NirVerif.C02.array_branch_generated", "NirVerif.C02.other_branches_generated"],
      rule="Every primitive with array-valued fields x 14 numeric dtypes x rank 0..5 (quick: 260 sampled combinations; "
           "thorough: all) with zero-length axes, random and special bit patterns (quiet/signalling NaN payloads, signed "
           "zeros, subnormals, infinities, integer extremes), six memory layouts (C, Fortran, negative/step strides, "
@@ -148,9 +149,9 @@ _reg("C03", c03.run, translator=("T1", "T2", "T3", "T13"), module="NirVerif.Prop
                 "(Encodes / write_encodes); spelled out for a primitive's group (leaf_group) and for a graph's group "
                 "(graph_group: type, edges, nodes/<name> per child and no other link, metadata only when non-empty).",
      level_note="Lean kernel + T1; h5py's create_dataset conversions are a modelled contract validated against real files on every run.")
-_reg("C04", c04.run,
+_reg("C04", c04.run, translator=("T1", "T13", "T19"), module="NirVerif.Properties.C04Generated",
      theorems=["NirVerif.C04.width_invariance", "NirVerif.C04.scalar_width_invariance", "NirVerif.C04.string_decoded",
-               "NirVerif.C04.order_invariance", "NirVerif.C04.optional_defaults"],
+               "NirVerif.C04.order_invariance", "NirVerif.C04.optional_defaults", "NirVerif.C04.reader_generated"],
      rule="The 8 shipped artefacts (read, re-write, re-read); files produced by an independent raw-h5py encoder with, per "
           "dataset, variable/fixed-length x ASCII/UTF-8 x NUL/space-padded strings, integer widths int8..int64 / uint8.."
           "uint32 / big-endian, contiguous/chunked/gzip storage, creation-order tracking with shuffled member order, fixed-"
